@@ -453,6 +453,7 @@ typedef struct {
     bool from_c_header;  /* True if this constant was loaded from a C header #define */
     int def_line;        /* Line where variable was defined */
     int def_column;      /* Column where variable was defined */
+    bool scope_closed;   /* Type checker: the block/function that declared it has ended */
 } Symbol;
 
 /* Function table entry */
@@ -625,6 +626,7 @@ typedef struct {
     bool forbid_unsafe;        /* Error (not warn) on unsafe modules */
     bool profile_gprof;        /* Enable gprof profiling analysis at exit */
     bool suppress_shadow_warnings;  /* Suppress missing shadow test warnings (for test harnesses) */
+    bool hide_closed_scopes;        /* Set while type checking: lookups skip symbols whose scope has ended */
 } Environment;
 
 /* Function declarations */
